@@ -320,7 +320,10 @@ func (parser *Parser) ParseExpression(depth int) (res Sexp, err error) {
 			return MakeHash(nil, "hash", env) // return empty hash
 		case TokenString:
 			// peek ahead past the string to see if we have ':' TokenColonOperator
-			_, _ = parser.ParserPeekNextToken(extra)
+			_, err = parser.ParserPeekNextToken(extra)
+			if err != nil {
+				return SexpNull, err
+			}
 
 			// are we { "name": value }, as in JSON?
 			second := lexer.tokens[extra]
@@ -336,7 +339,10 @@ func (parser *Parser) ParseExpression(depth int) (res Sexp, err error) {
 
 		case TokenBeginBacktickString:
 			// peek ahead past the string to see if we have ':' TokenColonOperator
-			_, _ = parser.ParserPeekNextToken(extra + 1)
+			_, err = parser.ParserPeekNextToken(extra + 1)
+			if err != nil {
+				return SexpNull, err
+			}
 
 			// are we { `name`: value }, as in JSON but with backtick quoted string this time?
 			second := lexer.tokens[extra]
